@@ -59,7 +59,8 @@ void genC09(uint64_t seed, int tier, Scenario& sc) {
                                               "setoption name Threads value 2", "setoption name OwnBook value true", "setoption name OwnBook value false",
                                               "setoption name UCI_AnalyseMode value true", "setoption name UCI_AnalyseMode value false",
                                               "setoption name Strength value 900", "setoption name Strength value 1000", "setoption name Contempt value 20",
-                                              "setoption name MaxNPS value 0", "setoption name MinProbeDepth value 2", "setoption name AnalysisAgeHash value false"};
+                                              "setoption name MaxNPS value 0", "setoption name MinProbeDepth value 2", "setoption name AnalysisAgeHash value false",
+                                              "uci", "uci", "isready"}; // a GUI may ask for the option list again: the protocol thread answers while the engine thread applies options
                 int nb = (int)r.range(2, 4);
                 for (int b = 0; b < nb; b++) pushSend(sc, burst[r.below(sizeof(burst) / sizeof(burst[0]))]);
             }
